@@ -6,7 +6,9 @@ G=${1:-*}
 fail=0
 for d in /verif/refactorings/$G/; do
   n=$(basename $d)
-  out=$(tools/try_mutation.sh $d 2>&1 | grep -v KNOWN)
+  prop=$(python3 -c "import json;print(json.load(open('$d/meta.json'))['property'][:3])")
+  if [ -n "$ALL" ]; then prop=""; fi   # ALL=1: every check, not just the refactored property's
+  out=$(tools/try_mutation.sh $d $prop 2>&1 | grep -v KNOWN)
   if echo "$out" | grep -q "DETECTS\|does not\|not clean"; then
     echo "ALARM $n"; echo "$out" | head -8 | cut -c1-300; fail=1
   else
